@@ -28,6 +28,24 @@
 (*   bootstrap machine's own 100ms handler timeout fires, so it races with    *)
 (*   the supervisor's 100ms handler timeout: the transition MAY be rolled     *)
 (*   back from ErrWorker on (machine.go recoverFinalPhase).                   *)
+(*                                                                            *)
+(* The two events of ONE fork reach the queue in either order.  The fork seam *)
+(* (TestFork / exec) starts the worker process; the worker dials its          *)
+(* bootstrap on its own (WorkerConnected -> WorkerForked) while the goroutine *)
+(* of ForkingWorkerState adds SetWorker only after the seam returned.         *)
+(*   Connect(f)       the usual order: the seam returned, SetWorker ran       *)
+(*   ConnectEarly(f)  the worker announces itself while the seam has not      *)
+(*                    returned yet (ph = "forking": WorkerForked is processed *)
+(*                    before SetWorker even reached the queue) or while       *)
+(*                    SetWorker still sits in the queue (ph = "setq")         *)
+(* As the code is, WorkerForkedState finds no boot entry in the first case,   *)
+(* refuses the worker with ErrWorkerMissing and leaves the map alone; the     *)
+(* late SetWorker then adds a boot entry nobody will ever switch to an rpc    *)
+(* one.  Only SetWorkerState ever grows the map (MapGrowsOnlyBySet).          *)
+(*   DropBoot(f)      the other way to a WorkerForked without a boot entry:   *)
+(*                    the entry is removed while the worker is booting        *)
+(*                    (SetWorker without WorkerInfo / WorkerKilled naming the *)
+(*                    boot address), the worker connects afterwards           *)
 EXTENDS Transition, SupSchema, Json
 
 CONSTANTS BootFault,
@@ -40,6 +58,8 @@ CONSTANTS BootFault,
           MaxHb,        \* heartbeat ticks
           MaxCheck,     \* CheckPool() calls
           MaxFlip,      \* readiness changes / disconnects of workers
+          MaxEarly,     \* workers that announce themselves BEFORE their fork call returned
+          MaxDrop,      \* boot entries taken out of the map while the worker is still booting
           QueueLimit,   \* events reach the queue only while it is shorter
           Emit,         \* record the schedule of controllable events
           Memo          \* memoise PoolTx in TLC's registers (bounded model only)
@@ -208,8 +228,11 @@ WillBeException(q) == \E i \in 1..Len(q) : q[i].k \in {"ERR", "ERRPOOL"}
 ---------------------------------------------------------------------------
 (* the worker map                                                             *)
 
+(* early: the worker announced itself (WorkerForked queued) before SetWorker   *)
+(*        for its fork was processed                                           *)
 NoWorker == [ph |-> "free", inmap |-> "none", nrdy |-> FALSE, errs |-> 0, dead |-> FALSE,
-             killreq |-> FALSE, killconf |-> FALSE, bexp |-> FALSE, deliv |-> 0, tf |-> 0]
+             killreq |-> FALSE, killconf |-> FALSE, bexp |-> FALSE, deliv |-> 0, tf |-> 0,
+             early |-> FALSE]
 
 Tracked(w)  == {f \in DOMAIN w : w[f].inmap # "none"}                   \* s.workers
 ReadySet(w) == {f \in DOMAIN w : w[f].inmap = "rpc" /\ w[f].nrdy /\ w[f].errs = 0}
@@ -259,8 +282,12 @@ Eff(c, acc, s, m, qrest) ==
     [] s = "WorkerForked" /\ has ->                   \* WorkerForkedState
          IF acc.wk[w].inmap = "boot"
          THEN [acc EXCEPT !.wk[w].inmap = "rpc",
-                          !.wk[w].ph = IF @ = "connq" THEN "rpc" ELSE @,
+                          !.wk[w].ph = IF @ = "connq" \/ (@ = "up" /\ acc.wk[w].early)
+                                       THEN "rpc" ELSE @,
                           !.q = Enq(qrest, @, M("ADDPR"))]
+         \* no boot entry (the worker is ahead of its SetWorker, or the entry is
+         \* gone): AddErrWorker(ErrWorkerMissing, {LocalAddr}); return -- the map
+         \* is not touched
          ELSE [acc EXCEPT !.q = Append(@, MS("ERR", w, "missing"))]
     [] s = "ErrWorker" ->                             \* ErrWorkerState
          LET a1 == IF WillBeException(qrest \o acc.q) THEN acc
@@ -302,7 +329,7 @@ VetoSet(c, w, m) ==
 (* behaviour                                                                  *)
 
 Cnt0 == [nf |-> 0, tf |-> 0, fail |-> 0, expire |-> 0, conn |-> 0, err |-> 0, hb |-> 0,
-         check |-> 0, flip |-> 0, wready |-> 0, pr |-> FALSE]
+         check |-> 0, flip |-> 0, wready |-> 0, pr |-> FALSE, early |-> 0, drop |-> 0]
 
 InitWith(c) ==
   /\ cfg = c
@@ -368,6 +395,8 @@ StepF(mayFault) ==
                    THEN {"NoForkAtMax"} ELSE {})
              \cup (IF SHas(ran, "ForkWorker") /\ ~(t0 < cfg.max)
                    THEN {"NoForkAtMax"} ELSE {})
+             \cup (IF Cardinality(Tracked(acc.wk)) > t0 /\ ~SHas(ran, "SetWorker")
+                   THEN {"MapGrowsOnlyBySet"} ELSE {})
         /\ wit' = (IF Cardinality(Tracked(acc.wk)) > cfg.max /\ t0 <= cfg.max
                    THEN {"overfork"} ELSE {})
              \cup (IF m.k = "ADDPR" /\ ~r.accepted /\ Tracked(wk) # {}
@@ -375,6 +404,17 @@ StepF(mayFault) ==
              \cup (IF prB /\ ~prA THEN {"withdrawn"} ELSE {})
              \cup (IF m.k = "REMPR" /\ prB /\ ~r.accepted THEN {"kept"} ELSE {})
              \cup (IF m.k = "KILLING" THEN {"kill"} ELSE {})
+             \* the worker was ahead of its SetWorker and got refused / SetWorker
+             \* arrives for a fork whose worker has announced itself already
+             \cup (IF m.k = "FORKED" /\ SHas(ran, "WorkerForked") /\ m.w \in DOMAIN wk
+                      /\ wk[m.w].inmap # "boot" /\ wk[m.w].early
+                   THEN {"forkedfirst"} ELSE {})
+             \cup (IF m.k = "SET" /\ m.src = "info" /\ SHas(ran, "SetWorker") /\ m.w \in DOMAIN wk
+                      /\ wk[m.w].early
+                   THEN {"lateset"} ELSE {})
+             \cup (IF m.k = "FORKED" /\ SHas(ran, "WorkerForked") /\ m.w \in DOMAIN wk
+                      /\ wk[m.w].inmap # "boot" /\ ~wk[m.w].early
+                   THEN {"forkeddropped"} ELSE {})
              \cup (IF m.k = "ERR" /\ r.accepted /\ ErrCounts(wk, m) /\ ~errRan
                    THEN {"errlost"} ELSE {})
         \* observable, not controllable: a TestFork call arrived (is parked)
@@ -427,13 +467,36 @@ BootExpire(f) ==
 (* ---- the worker process connects to its bootstrap: WorkerConnected, then    *)
 (*      (goroutine: rpc client to the worker) WorkerForked                     *)
 Connect(f) ==
-  /\ Room /\ wk[f].ph = "up" /\ cnt.conn < MaxConn
+  /\ Room /\ wk[f].ph = "up" /\ ~wk[f].early /\ cnt.conn < MaxConn
   /\ queue' = Append(queue, MW("FORKED", f))
   /\ wk' = [wk EXCEPT ![f].ph = "connq"]
   /\ cnt' = [cnt EXCEPT !.conn = @ + 1]
   /\ hist' = H([k |-> "connect", i |-> wk[f].tf, ok |-> TRUE])
   /\ wit' = {}
   /\ UNCHANGED <<cfg, active, norm, hb, bad>>
+
+(* ---- the same, but the worker is faster than the fork seam: it announces    *)
+(*      itself while TestFork has not returned (SetWorker not even queued) or  *)
+(*      while SetWorker is still waiting in the queue                          *)
+ConnectEarly(f) ==
+  /\ Room /\ wk[f].ph \in {"forking", "setq"} /\ ~wk[f].early
+  /\ cnt.conn < MaxConn /\ cnt.early < MaxEarly
+  /\ queue' = Append(queue, MW("FORKED", f))
+  /\ wk' = [wk EXCEPT ![f].early = TRUE]
+  /\ cnt' = [cnt EXCEPT !.conn = @ + 1, !.early = @ + 1]
+  /\ hist' = H([k |-> "connect", i |-> wk[f].tf, ok |-> TRUE])
+  /\ wit' = {}
+  /\ UNCHANGED <<cfg, active, norm, hb, bad>>
+
+(* ---- the boot entry of a worker that has not connected yet is removed:      *)
+(*      Add1(SetWorker, {WorkerAddr: bootAddr}) (no WorkerInfo)                *)
+DropBoot(f) ==
+  /\ Room /\ wk[f].ph = "up" /\ wk[f].inmap = "boot" /\ cnt.drop < MaxDrop
+  /\ queue' = Append(queue, MS("SET", f, "del"))
+  /\ cnt' = [cnt EXCEPT !.drop = @ + 1]
+  /\ hist' = H([k |-> "dropboot", i |-> wk[f].tf, ok |-> FALSE])
+  /\ wit' = {}
+  /\ UNCHANGED <<cfg, active, wk, norm, hb, bad>>
 
 (* ---- the supervisor's replica (NetMach) of a worker follows its Ready       *)
 NetReady(f) ==
@@ -576,7 +639,7 @@ Next ==
   \/ Step
   \/ \E f \in DOMAIN wk :
         \/ BootReady(f) \/ ForkRet(f, TRUE) \/ ForkRet(f, FALSE) \/ BootExpire(f)
-        \/ Connect(f) \/ NetReady(f) \/ NetUnready(f) \/ Disc(f) \/ InjectErr(f)
+        \/ Connect(f) \/ ConnectEarly(f) \/ DropBoot(f) \/ NetReady(f) \/ NetUnready(f) \/ Disc(f) \/ InjectErr(f)
         \/ KillConfirm(f) \/ HbErr(f)
   \/ HbTick \/ CheckPool \/ WReady
   \/ NormList \/ NormForkOne \/ NormCheckReady \/ NormRoundEnd
@@ -591,6 +654,11 @@ WithinMax == Cardinality(Tracked(wk)) <= cfg.max
 (* never forks while at Max (weak reading: at the moment the fork is decided, *)
 (* i.e. when ForkWorkerState / ForkingWorkerState run)                        *)
 NoForkAtMax == "NoForkAtMax" \notin bad
+
+(* the worker map grows in SetWorkerState only: WorkerForkedState renames an   *)
+(* entry (boot address -> local address), it never creates one -- whatever    *)
+(* the order in which a fork's SetWorker and WorkerForked arrive              *)
+MapGrowsOnlyBySet == "MapGrowsOnlyBySet" \notin bad
 
 (* PoolReady becomes active only when >= min(Min, Max) workers are ready at   *)
 (* that moment (action formula, evaluated in Step)                            *)
